@@ -137,6 +137,16 @@ def gen(ctx, extra_schemas=None, hot=()):
             b = deep_buffer(levels, via)
             lines.append("verify t0 plain - 0 %s" % b.hex()); exp.append(None)
     blocks.append(lines); expect_ok.append(exp)
+    # nesting depth through nested buffers: table 0 { f0:[ubyte] (nested_flatbuffer: table 0) }, a chain of `levels` buffers inside each other; the
+    # nesting budget is one budget for the whole verification, not one per nested buffer
+    lines = [fbenc.schema_line([[fbenc.fld(0, 0, "nt", 0, 1)]], [])]; exp = [None]
+    for levels in (1, 2, 10, 49, 50, 51, 98, 99, 100, 101, 102, 150, 300, 1000):
+        b = struct.pack("<I", 8) + struct.pack("<HH", 4, 4) + struct.pack("<i", 4)
+        for _ in range(levels - 1):
+            b = struct.pack("<I", 12) + struct.pack("<HHH", 6, 8, 4) + b"\0\0" + struct.pack("<i", 8) + struct.pack("<I", 4) + struct.pack("<I", len(b)) + b
+            b += b"\0" * (-len(b) % 4)
+        lines.append("verify t0 plain - 0 %s" % b.hex()); exp.append(None)
+    blocks.append(lines); expect_ok.append(exp)
     # struct roots
     lines = ["schema _"]; exp = [None]
     for (size, align) in ((0, 1), (1, 1), (4, 4), (8, 8), (16, 16), (24, 8), (3, 1)):
